@@ -51,6 +51,7 @@ class Ctx:
         self.rules_text: dict[str, str] = {}
         self.t0 = time.time()
         self._seen_keys: dict[tuple[str, str], int] = {}
+        self.analysis_errors: list[str] = []
 
     def rule(self, rule_id: str, text: str) -> None:
         self.rules_text[rule_id] = text
@@ -67,7 +68,21 @@ class Ctx:
     def require(self, rule: str, what: str, found: int, minimum: int) -> None:
         """A rule that matches fewer instances than confirmed by hand must not pass vacuously."""
         if found < minimum:
-            raise AnalysisError(f"{rule}: found {found} {what}, expected at least {minimum} (anchor vanished or shape not understood)")
+            self.analysis_errors.append(
+                f"{rule}: found {found} {what}, expected at least {minimum} (anchor vanished or shape not understood)"
+            )
+
+    def run(self, fn, *args) -> None:
+        """Run one rule function; an AnalysisError inside it is recorded and the other rules still run."""
+        try:
+            fn(self, *args)
+        except AnalysisError as e:
+            self.analysis_errors.append(f"{getattr(fn, '__name__', 'rule')}: {e}")
+        except Exception as e:  # noqa: BLE001 - an analyser crash is never a verdict; other rules still run
+            import traceback
+
+            traceback.print_exc()
+            self.analysis_errors.append(f"{getattr(fn, '__name__', 'rule')}: analyser crashed: {type(e).__name__}: {e}")
 
     def note(self, key: str, value) -> None:
         self.analysed[key] = value
@@ -147,6 +162,12 @@ def finish(ctx: Ctx, explanation: str, replay_filter: dict | None = None) -> int
         rc = 1
     if replay_filter is None and not os.environ.get("VERIF_NO_EVIDENCE"):
         write_evidence(ctx, explanation, len(violations), [o for o, _ in known_hit])
+    if ctx.analysis_errors and replay_filter is None:
+        # a violation found elsewhere is still a verdict; without one the run cannot be called a pass
+        for e in ctx.analysis_errors:
+            print(f"ANALYSIS-ERROR property={ctx.prop} {e}")
+        if rc == 0:
+            rc = 2
     n = len(ctx.obligations)
     n_ok = sum(1 for o in ctx.obligations if o.ok)
     if os.environ.get("VERIF_VERBOSE"):
